@@ -19,7 +19,7 @@ RULE = (
 )
 ASSUMPTIONS = [
     "libxxhash.so.0 (system build) and coreutils implement the standard algorithms; validated against published vectors at start-up",
-    "short reads are not injected: BufferedReader.read(n) semantics on regular files are relied upon",
+    "30 % of the cases inject short reads (read(n) returning fewer bytes although more follow): legal for read(2) and 'read chunking' is named in the statement",
 ]
 MIN_DECIDING = {"digest_compared": 50, "cli_create_digest": 5, "verify_flip_11": 3}
 
@@ -40,6 +40,10 @@ class _F:
         self._f = f
 
     def read(self, n=-1):
+        sr = _obs.get("short")
+        if sr is not None and isinstance(n, int) and n > 1:
+            # a short read: fewer bytes than asked for although more follow (pipes, network file systems, signals)
+            n = sr.randint(1, n) if sr.random() < 0.5 else n
         b = self._f.read(n)
         _obs["reads"].append((n, len(b)))
         return b
@@ -140,6 +144,7 @@ def run_case(cs):
     import ascmhl.hasher as H
 
     rng = cs.rng
+    _obs["short"] = None
     mode = rng.random()
     if mode < 0.12:
         return _codec_case(cs, H)
@@ -149,6 +154,9 @@ def run_case(cs):
         return _symlink_case(cs, H)
     n = _sizes(rng)
     data = world.gen_bytes(rng, n)
+    _obs["short"] = env.rng_for(cs.seed_str, "short-reads") if rng.random() < 0.3 else None
+    if _obs["short"] is not None:
+        cs.count("cases_with_injected_short_reads")
     k = rng.choice([1, 1, 2, 3, 6, 7])
     subset = rng.sample(ALL_FMT, k)
     coreutils = rng.random() < 0.15
@@ -242,6 +250,7 @@ def run_case(cs):
                     {"kind": "flip-undetected", "exit": r.exit, "size_class": _size_class(n), "pos": "first" if i == 0 else "last" if i == n - 1 else "mid"},
                     {"size": n, "offset": i, **r.brief()},
                 )
+    _obs["short"] = None
     cs.sample({"size": n, "formats": subset, "name": fname, "want": {f: want[f] for f in subset[:2]}})
 
 
